@@ -86,19 +86,22 @@ def inline(key):
 
 
 class Spec:
-    def __init__(self, fn, recursive):
+    def __init__(self, fn, recursive, uninterpreted=False):
         self.fn = fn
         self.name = fn.__name__
         self.recursive = recursive
+        self.uninterpreted = uninterpreted
         self.__name__ = fn.__name__
 
     def __call__(self, *a, **k):
         return self.fn(*a, **k)
 
 
-def spec(fn=None, *, recursive=False):
+def spec(fn=None, *, recursive=False, uninterpreted=False):
+    """uninterpreted=True: the SMT reading is an uninterpreted function of the (annotated) argument sorts;
+    the Python body is only the *native* reading used in replays (e.g. `return v.source_signature()`)."""
     def deco(f):
-        s = Spec(f, recursive)
+        s = Spec(f, recursive, uninterpreted)
         SPECS[f.__name__] = s
         return s
     return deco(fn) if fn is not None else deco
